@@ -36,9 +36,16 @@ def find_slice(fnode, start, end):
             yield from lists(h)
 
     norm = lambda s: " ".join(ast.unparse(s).split())
+    # an anchor may be (text, n): the n-th statement (0-based, in source order of statement lists) starting with text
+    skip = 0
+    if isinstance(start, tuple):
+        start, skip = start
     for lst in lists(fnode):
         for i, s in enumerate(lst):
             if norm(s).startswith(start):
+                if skip > 0:
+                    skip -= 1
+                    continue
                 for j in range(i, len(lst)):
                     if norm(lst[j]).startswith(end):
                         return lst[i: j + 1]
